@@ -310,7 +310,7 @@ func verifyRun(opts *RunOpts) (*Run, error) {
 			run.RelFailing, run.RelTotal, run.RelBound, run.RelRan = f, total, k, true
 		}
 	}
-	if opts.Prop == "C07" || opts.Prop == "C03" {
+	if opts.Prop == "C07" || opts.Prop == "C03" || opts.Prop == "C05" { // C05: which handlers run, and whose veto counts
 		f, total, err := runBoundedNegotiation(opts)
 		if err != nil {
 			run.StandinErrs = append(run.StandinErrs, [2]string{"negotiation", err.Error()})
